@@ -16,7 +16,7 @@
 import Proofs.SaveWrite
 import Proofs.SaveHashPath
 import Proofs.SaveWriteRefines
-import Proofs.SaveSession
+import Proofs.SaveSessionCache
 namespace Pyctr.C18
 open Pyctr Pyctr.Save
 
@@ -215,5 +215,42 @@ theorem C18_reopen_session (H : Bytes → Bytes) (mac : Bytes → Bytes → Byte
     (hrun : lv4Run H mac cm c ops = .ok c') : Synced H c' ∧ ∀ pi p, c'.parts[pi]? = some p → PartOK c' pi p :=
   have hG := lv4Run_good H mac cm hH hmac ops c c' (good_of_regular H kind F w c ho hr) hrun
   ⟨hG.1, hG.2⟩
+
+/-- **same session, a write** (on a regular container whose tree verifies completely, caches sound): the invariant survives
+    - in particular every verification cache is still sound although only the entries of the touched blocks were dropped -,
+    the written partition's verified view is the old view with the clamped data laid over it at the reader's position, the
+    position advances by the byte count returned, and no other partition's view changes.  `¬ ZeroHash H`: the hash function
+    never outputs 32 zero bytes (such a block would read as "uninitialised"). -/
+theorem C18_session_write (H : Bytes → Bytes) (mac : Bytes → Bytes → Bytes) (cm : Option CmacScheme) (c : Cont) (pi : Nat)
+    (data : Bytes) (n : Nat) (c' : Cont)
+    (hH : ∀ x, (H x).length = 0x20) (hmac : ∀ k x, (mac k x).length = 0x10) (hnz : ¬ ZeroHash H)
+    (hG : Good3 H c) (h : lv4Write H mac cm c pi data = .ok (n, c')) :
+    Good3 H c' ∧ ∃ p p', c.parts[pi]? = some p ∧ c'.parts[pi]? = some p' ∧
+      n = (writeClamp p data).length ∧ p'.seek = p.seek + n ∧
+      p'.view H c'.F = (if writeClamp p data = [] then p.view H c.F else overlay (p.view H c.F) p.seek (writeClamp p data)) ∧
+      ∀ j q, j ≠ pi → c.parts[j]? = some q → c'.parts[j]? = some q ∧ q.view H c'.F = q.view H c.F :=
+  lv4Write_good3 H mac cm c pi data n c' hH hmac hnz hG h
+
+/-- **same session, a read**: returns the slice of the partition's current view at the reader's position (clamped like a file
+    read), advances the position by the bytes returned, changes no file byte and keeps the invariant -/
+theorem C18_session_read (H : Bytes → Bytes) (c : Cont) (pi : Nat) (size : Int) (d : Bytes) (c' : Cont)
+    (hG : Good3 H c) (h : contRead H c pi size = .ok (d, c')) :
+    Good3 H c' ∧ c'.F = c.F ∧ ∃ p, c.parts[pi]? = some p ∧
+      d = slice (p.view H c.F) p.seek (readCount p.ivfc.lv4.size p.seek size) ∧
+      ∃ ca, c'.parts = c.parts.set pi { p with caches := ca, seek := p.seek + d.length } :=
+  contRead_good3 H c pi size d c' hG h
+
+/-- **every session on a fully verifying regular container**: the invariant `Good3` (re-opening gives the session's state;
+    caches sound; tree fully verifying; regularity) holds after any sequence of seeks, reads and writes - so by the two step
+    theorems above each partition's verified view behaves like an ordinary file under those operations, in the session, and by
+    `C18_reopen_session` the same view is what a fresh open shows.  `regularB` and `allValidB` are decidable and evaluated by the
+    driver on every generated image (`save-hyp`, letters r and v). -/
+theorem C18_session (H : Bytes → Bytes) (mac : Bytes → Bytes → Bytes) (cm : Option CmacScheme) (kind : Kind) (F : Bytes)
+    (w : Bool) (c c' : Cont) (ops : List Lv4Op)
+    (hH : ∀ x, (H x).length = 0x20) (hmac : ∀ k x, (mac k x).length = 0x10) (hnz : ¬ ZeroHash H)
+    (ho : openCont H kind F w = .ok c) (hr : regularB c = true)
+    (hv : c.parts.all (fun p => allValidB H p.tree p.master (p.P c.F)) = true)
+    (hrun : lv4Run H mac cm c ops = .ok c') : Good3 H c' :=
+  lv4Run_good3 H mac cm hH hmac hnz ops c c' (good3_of_open H kind F w c ho hr hv) hrun
 
 end Pyctr.C18
